@@ -1,5 +1,5 @@
 // Decoder layer (C07, C05): drives the real CDNS::CdnsDecoder.
-//   dec <s|f|u> <input-spec> <op>,<op>,...   ->  I r1;r2;...   (stops at the first exception)
+//   dec <s|f|u>[+] <input-spec> <op>,<op>,...   ->  I r1;r2;...   (stops at the first exception; with '+' it goes on after E:end)
 #include "common.h"
 #include "cdns_decoder.h"
 #include "cdns_encoder.h"
@@ -36,7 +36,10 @@ bool parse_input(const std::string& spec, std::string& out) {
 
 std::string shown(const std::string& s) { return s.empty() ? std::string("-") : vh::to_hex(s); }
 
-std::string session(const std::string& kind, const std::string& spec, const std::string& ops) {
+std::string session(const std::string& kind_arg, const std::string& spec, const std::string& ops) {
+    // kinds "s+", "f+", "u+": the session goes on after an end-of-input error (the same decoder object is called again)
+    bool cont = !kind_arg.empty() && kind_arg.back() == '+';
+    std::string kind = cont ? kind_arg.substr(0, kind_arg.size() - 1) : kind_arg;
     std::string data;
     parse_input(spec, data);
     std::unique_ptr<std::istream> in;
@@ -75,7 +78,7 @@ std::string session(const std::string& kind, const std::string& spec, const std:
             if (!first) out += ";";
             out += r;
             first = false;
-            if (r.rfind("E:", 0) == 0) break;
+            if (r.rfind("E:", 0) == 0 && !(cont && r == "E:end")) break;
         }
     }
     if (mfd >= 0) close(mfd);
